@@ -438,7 +438,9 @@ where
     pub fn write_const(&self, did: DefId, stream: &mut String, c: &middle::rir::Const) {
         let mut ty = self.codegen_ty(did);
 
-        let name = self.rust_name(did);
+        // render through Display so that a name that is a Rust keyword is escaped (`r#if`),
+        // as it is everywhere the constant is referred to
+        let name = self.rust_name(did).to_string();
 
         stream.push_str(&self.def_lit(&name, &c.lit, &mut ty).unwrap())
     }
